@@ -62,6 +62,7 @@ def _prof(name: str) -> Prof:
                 'schem': Prof(symbol=0, svar=False, mu=False, metavars=2, subst=True, mv_cfgs=((0, 0, 0, 0), (1, 0, 0, 0))),
                 'val_binder': Prof(symbol=0, svar=False, mu=False, app=True, implies=False, exists=False, metavars=0, notations=(D.functional, S.forall(0), S.forall(1), K.sorted_exists(1))),
                 'prem_asym': Prof(symbol=1, svar=False, mu=False, app=False, exists=False, metavars=0, nt_key_orders=True, notations=(asym_notation(),)),
+                'val_bs': Prof(symbol=0, implies=False),
                 'schem_nt': Prof(symbol=0, svar=False, mu=False, app=False, metavars=2, notations=(P.bot, P.neg, P._and)),
             }
         )
@@ -245,7 +246,13 @@ def h_inst(ctx: Any, n: int, m: int, prof: str, interp: str, val: str = 'val', t
     from proof_generation.proof import ProofExp
     from proof_generation.proved import Proved
 
-    if prof == 'quantifier':
+    if prof == 'ssubst':
+        # a pending set-variable substitution, resolved on the value (binders of both kinds in the value)
+        X = ctx.int('X')
+        plug = gens.gen_upto(ctx, 1, _prof('val_bs'))
+        prem = P.Implies(P.SSubst(P.MetaVar(0), P.SVar(X), plug), P.MetaVar(0))
+        keys = (0,)
+    elif prof == 'quantifier':
         # the Quantifier schema with symbolic variables: its pending substitution is resolved on the value
         x, y = ctx.int('x'), ctx.int('y')
         prem = P.Implies(P.ESubst(P.MetaVar(0), P.EVar(x), P.EVar(y)), P.Exists(x, P.MetaVar(0)))
@@ -312,6 +319,8 @@ def levels(tier: str) -> list[dict]:
                 L.append(dict(label=f'mp/{it}/partial-instantiate/body={n}', module=M, fn='h_mp_raw', kwargs=dict(n=n, interp=it), budget_s=bud, required=True, twin=False))
         for m in ([2, 3, 4] if q else [2, 3, 4, 5]):
             L.append(dict(label=f'inst/{it}/quantifier-schema/binder-notation-value<={m}', module=M, fn='h_inst', kwargs=dict(n=0, m=m, prof='quantifier', interp=it, val='val_binder'), budget_s=bud, required=m <= 4, twin=False))
+        for m in ([2, 3, 4] if q else [2, 3, 4, 5]):
+            L.append(dict(label=f'inst/{it}/pending-set-substitution/value-with-binders<={m}', module=M, fn='h_inst', kwargs=dict(n=0, m=m, prof='ssubst', interp=it, val='val_bs'), budget_s=bud, required=m <= 3, twin=False))
         for pn in ('schem', 'schem_nt'):
             for n in ([1, 2, 3] if q else [1, 2, 3, 4]):
                 L.append(dict(label=f'inst/{it}/{pn}/n={n}', module=M, fn='h_inst', kwargs=dict(n=n, m=1 if q else 2, prof=pn, interp=it), budget_s=bud, required=n <= 3, twin=(n == 2)))
